@@ -51,7 +51,8 @@ def run(ctx):
             cfg = (7, i % 2, True, 0)          # no checksum/CRC validation
         else:
             cfg = (7, i % 2, True, 1)
-        cases.append({"stream": s, "pf": cfg[0], "qe": cfg[1], "parsing": cfg[2], "validate": cfg[3]})
+        cases.append({"stream": s, "pf": cfg[0], "qe": cfg[1], "parsing": cfg[2], "validate": cfg[3],
+                      "msgmode": rng.choice([0, 0, 0, 1, 2, 3]), "bf": rng.random() < 0.8})
     # the dispatch table again with parsing off (every header, whatever its position in the loop above)
     for b1 in (0xb5, 0x24, 0xd3):
         for b2 in range(256):
